@@ -30,6 +30,13 @@ def leaf(ff: FuncFacts, e: ast.expr) -> Tuple[str, bool]:
         if isinstance(r, ast.Constant) and r.value is None and isinstance(op, (ast.Is, ast.IsNot, ast.Eq, ast.NotEq)):
             return f'{ff.canon.key(l)} is None', isinstance(op, (ast.Is, ast.Eq))
         if isinstance(op, (ast.Eq, ast.NotEq, ast.Is, ast.IsNot)):
+            # a comparison with a constant of the program (enum member, module constant) is keyed by the constant's VALUE
+            from .model import UNKNOWN
+            prog, f_ = ff.eng.prog, ff.func
+            for subj_, other in ((l, r), (r, l)):
+                c = prog.fold(f_.module, other, f_.owner_class)
+                if c is not UNKNOWN and not isinstance(c, (frozenset, tuple)) and prog.fold(f_.module, subj_, f_.owner_class) is UNKNOWN:
+                    return f'{ff.canon.key(subj_)} == {c!r}', isinstance(op, (ast.Eq, ast.Is))
             a, b = sorted([ff.canon.key(l), ff.canon.key(r)])
             return f'{a} == {b}', isinstance(op, (ast.Eq, ast.Is))
         if isinstance(op, (ast.In, ast.NotIn)):
@@ -109,20 +116,22 @@ def paths_under(ff: FuncFacts, val: Dict[str, bool], start: Optional[Node] = Non
                 t = norm(a.targets[0])
                 if isinstance(a.value, ast.Constant) and a.value.value is None:
                     v[f'{t} is None'] = True
-                elif isinstance(a.value, ast.Call):
+                elif isinstance(a.value, (ast.Call, ast.Tuple, ast.List, ast.Dict, ast.Set, ast.JoinedStr, ast.Lambda, ast.ListComp, ast.DictComp, ast.SetComp)) or (
+                        isinstance(a.value, ast.Constant) and a.value.value is not None):
                     v[f'{t} is None'] = False
         succs = [(t, l) for t, l in n.succ if l not in ('exc', 'uncaught', 'handler')]
         if n.kind == 'test':
-            d = evaluate(ff, n.ast.test, v)
+            test_e = FuncFacts.subst_flags(n.ast.test, ff.at(n))   # a local that stands for a predicate is tested as that predicate
+            d = evaluate(ff, test_e, v)
             if d is not None:
                 succs = [(t, l) for t, l in succs if l == ('true' if d else 'false')]
             else:
                 # learn the outcome of a single-leaf test along the branch taken
-                k, pol = leaf(ff, n.ast.test)
+                k, pol = leaf(ff, test_e)
                 new = []
                 for t, l in succs:
                     v2 = v
-                    if not isinstance(ff.canon.expr(n.ast.test), ast.BoolOp):
+                    if not isinstance(ff.canon.expr(test_e), ast.BoolOp):
                         v2 = dict(v)
                         v2[k] = (l == 'true') == pol
                     stack.append((t, path, v2, seen))
@@ -158,6 +167,13 @@ def value_on_path(path: Sequence[Node], upto: int, e: ast.AST, depth: int = 4) -
                     if any(isinstance(x, (ast.Await, ast.Yield, ast.YieldFrom)) for x in ast.walk(a.value)):
                         return None
                     return i, a.value
+                # ``a, b = <tuple value>``: the element at the name's position, when the value resolves to a tuple display of that length
+                if len(tg) == 1 and isinstance(tg[0], (ast.Tuple, ast.List)) and all(isinstance(x, ast.Name) for x in tg[0].elts) and name in [x.id for x in tg[0].elts] and a.value is not None:
+                    v = value_on_path(path, i, a.value, depth - 1) if depth > 1 else a.value
+                    pos = [x.id for x in tg[0].elts].index(name)
+                    if isinstance(v, (ast.Tuple, ast.List)) and len(v.elts) == len(tg[0].elts) and not any(isinstance(x, ast.Starred) for x in v.elts):
+                        return i, v.elts[pos]
+                    return None
                 if any(isinstance(x, ast.Name) and x.id == name and isinstance(x.ctx, ast.Store) for t in tg for x in ast.walk(t)):
                     return None
             elif path[i].kind in ('iter', 'except', 'with'):
